@@ -7,15 +7,15 @@ BASE = json.load(open("/root/.vp/BASELINE.json"))
 
 CHECKS = {
  "C17": dict(engine="schedsim", design="§3",
-   technique="deterministic simulation: real pipeline models driven under a simulated thread pool whose start/finish/yield/timeout decisions come from a seeded, replayable scheduler (completion orders, worker limits, failing branches, timeouts firing, overlapping forwards of one shared object); list-model oracle over the recorded stage trace",
+   technique="deterministic simulation: real pipeline models driven under a simulated thread pool and virtual clock whose start/finish/yield/timeout decisions and per-branch durations come from a seeded, replayable scheduler (completion orders, worker limits, failing branches, timeouts firing, overlapping forwards of one shared object, guard-chain conditions, nested pipelines, add/remove/replace histories); list-model oracle over the recorded stage trace",
    text="Seeded search over thread-pool schedules (start/finish interleavings under the worker limit, order of already-finished futures), injected branch failures and add/remove histories, on the real ParallelModel/Sequential/Branching/Feedback/MAC/Wyner-Ziv code with recording stub stages. A clean batch is evidence over the sampled schedules, not a proof; for <=4 branches every yield permutation is in practice reached (measured in the evidence).",
    note="Trusted: the simulated executor's fidelity to ThreadPoolExecutor/as_completed semantics, CPython Future, atomic branch bodies (no pre-emption inside a stage), the list-model oracle."),
  "C16": dict(engine="histsim", design="§5.1",
-   technique="deterministic simulation: seeded delivery layer (fragmenting, coalescing, reordering, interleaved compute/reset) in front of one long-lived metric object (one-shot and rejected calls on the live object, aliased argument pairs, dtype and layout variation), checked operation by operation against a two-integer reference model",
+   technique="deterministic simulation: seeded delivery layer (fragmenting, coalescing, reordering, interleaved compute/reset) in front of one long-lived metric object (one-shot and rejected calls on the live object, batches in other dtypes, aliased argument pairs, layout variation), checked operation by operation against a two-integer reference model; a call that raises must be atomic or absent",
    text="Seeded search over update/compute/reset histories and batch partitions of a data stream on the real BitErrorRate/BlockErrorRate objects (all aliases and registry names) with a reference counter; one-shot clauses (exact fraction, symmetry, zero-iff-equal, BER<=BLER<=min(1,B*BER), helper agreement, non-divisor rejection) are per-step checks in the same runs. Evidence over sampled histories, not a proof.",
    note="Trusted: the reference counter (two Python integers), float32 tolerance 2e-6 relative; nothing asserted about an object after a rejected call or about forward() touching accumulators."),
  "C12": dict(engine="rngsim", design="§6.2",
-   technique="deterministic simulation of the channel's fault process: simulator-owned random source (torch.manual_seed per run, replayable realisation); exact support invariants on every sample, exact-binomial tests on rates, symmetry and disjoint-pair independence within a call and between consecutive calls, with a 1e-9 per-run false-alarm bound",
+   technique="deterministic simulation of the channel's fault process: simulator-owned random source (torch.manual_seed per run, replayable realisation); exact support invariants on every sample, exact-binomial tests on rates, symmetry, per-call event-count distribution and disjoint-pair independence within a call and between consecutive calls, with a 1e-9 per-run false-alarm bound; sibling objects swept in place",
    text="Seeded realisations of BSC/BEC/Z over probabilities, alphabets, dtypes and shapes; support invariants are exact on every sample, distributional clauses are decided up to the stated error probability and the resolution ~1e6 symbols allow.",
    note="Trusted: torch's generator is the only random source; exact binomial tails from scipy; per-test level 5e-15."),
  "C07": dict(engine="rngsim", design="§6.1",
